@@ -890,6 +890,22 @@ impl<'cmd> Parser<'cmd> {
     ) -> ClapResult<ParseResult> {
         debug!("Parser::parse_short_arg: short_arg={short_arg:?}");
 
+        // When revisiting a group of short flags after a flag subcommand, only the flags that
+        // follow the subcommand's are ours; consume the saved skip before anything can return
+        let skip = self.flag_subcmd_skip;
+        self.flag_subcmd_skip = 0;
+        if skip == 0 {
+            // Not revisiting a group of short flags after a flag subcommand: any position saved
+            // for an earlier group is stale
+            self.flag_subcmd_at = None;
+        }
+        let res = short_arg.advance_by(skip);
+        debug_assert_eq!(
+            res,
+            Ok(()),
+            "tracking of `flag_subcmd_skip` is off for `{short_arg:?}`"
+        );
+
         #[allow(clippy::blocks_in_conditions)]
         if matches!(parse_state, ParseState::Opt(opt) | ParseState::Pos(opt)
                 if self.cmd[opt].is_allow_hyphen_values_set() || (self.cmd[opt].is_allow_negative_numbers_set() && short_arg.is_negative_number()))
@@ -922,19 +938,6 @@ impl<'cmd> Parser<'cmd> {
 
         let mut ret = ParseResult::NoArg;
 
-        let skip = self.flag_subcmd_skip;
-        self.flag_subcmd_skip = 0;
-        if skip == 0 {
-            // Not revisiting a group of short flags after a flag subcommand: any position saved
-            // for an earlier group is stale
-            self.flag_subcmd_at = None;
-        }
-        let res = short_arg.advance_by(skip);
-        debug_assert_eq!(
-            res,
-            Ok(()),
-            "tracking of `flag_subcmd_skip` is off for `{short_arg:?}`"
-        );
         // How many flags of this group have been consumed, counting the skipped ones
         let mut consumed = skip;
         while let Some(c) = short_arg.next_flag() {
